@@ -1,4 +1,5 @@
 import AggkitModel.Proofs.ReorgSync
+import AggkitModel.Generated.CertFacts
 /-
 C06 — reorgs of processed blocks are detected; the node converges to the canonical chain.
 Property theorems only. Quantifiers: every chain history (new blocks, reorgs at any depth above the finalized block, new
@@ -241,5 +242,11 @@ example : (run {} [.blk 1, .blk 1, .blk 1, .fin 1, .stepA 3, .reorg 2, .blk 2, .
     = [(1, 1), (2, 1), (3, 1), (4, 1)] := by decide
 example : (run {} [.blk 1, .blk 1, .blk 1, .fin 1, .stepA 3, .reorg 2, .blk 2, .blk 2, .blk 1, .stepA 1, .detect, .stepA 9]).a.store
     = [(1, 1), (2, 2), (3, 2), (4, 1)] := by decide
+
+
+/-- the order of the detector's steps after a hash mismatch that the model (and `C06_stopped_during_reorg`) assumes: the
+    tracked range is dropped only after the subscriber has acknowledged the rewind (regenerated from /repo on every run) -/
+theorem C06_code_facts :
+    Gen.CertFacts.reorgSteps = ["insertReorgEvent", "notifySubscriber", "removeTrackedBlockRange", "removeRange"] := by decide
 
 end Aggkit.ReorgSync
